@@ -85,7 +85,7 @@ Proof.
   - rewrite Hg. auto.
   - destruct e; simpl; rewrite Hg; auto.
 Qed.
-Lemma Q_tolerate F b r : Q F r -> Q F (tolerate b r).
+Lemma Q_tolerate F b o r : Q F r -> Q F (tolerate b o r).
 Proof.
   destruct r as [[v s]|e s| | |]; simpl; auto.
   destruct e; simpl; destruct b; simpl; auto.
@@ -233,7 +233,7 @@ Ltac q_step H :=
   match goal with
   | |- Q _ (rbind _ _) => apply Q_rbind; [|intros ? ? ?; cbv beta iota zeta]
   | |- Q _ (rfinal _ _) => apply Q_rfinal; [intros; fa_solve|]
-  | |- Q _ (tolerate _ _) => apply Q_tolerate
+  | |- Q _ (tolerate _ _ _) => apply Q_tolerate
   | |- Q _ (of_opres _ _) => apply Q_of_opres; fa_solve
   | |- Q _ (fail _) => apply Q_fail; fa_solve
   | |- Q _ (ROk (_, _)) => apply Q_ok; fa_solve
